@@ -9,13 +9,13 @@ open MgModel.C09 MgModel.C09.T
 factor is exactly `height(right) − height(left)` -/
 def Avl : T → Prop
   | .nil => True
-  | .node l _ _ b r => Avl l ∧ Avl r ∧ b = (height r : Int) - (height l : Int) ∧ -1 ≤ b ∧ b ≤ 1
+  | .node l _ _ b r _ _ => Avl l ∧ Avl r ∧ b = (height r : Int) - (height l : Int) ∧ -1 ≤ b ∧ b ≤ 1
 
 /-- the in-order key sequence is strictly increasing -/
 def Sorted (t : T) : Prop := (toList t).Pairwise (fun p q => p.1 < q.1)
 
-theorem sorted_node {l k v b r} :
-    Sorted (.node l k v b r) ↔
+theorem sorted_node {l k v b r i p} :
+    Sorted (.node l k v b r i p) ↔
       Sorted l ∧ Sorted r ∧ (∀ p ∈ toList l, p.1 < k) ∧ (∀ p ∈ toList r, k < p.1) := by
   simp only [Sorted, toList, List.pairwise_append, List.pairwise_cons, List.mem_cons]
   constructor
@@ -30,101 +30,118 @@ theorem sorted_node {l k v b r} :
 
 @[simp] theorem avl_nil : Avl .nil := trivial
 @[simp] theorem height_nil : height .nil = 0 := rfl
-@[simp] theorem height_node (l k v b r) : height (.node l k v b r) = max (height l) (height r) + 1 := rfl
+@[simp] theorem height_node (l k v b r i p) :
+    height (.node l k v b r i p) = max (height l) (height r) + 1 := rfl
 @[simp] theorem toList_nil : toList .nil = [] := rfl
-@[simp] theorem toList_node (l k v b r) : toList (.node l k v b r) = toList l ++ (k, v) :: toList r := rfl
+@[simp] theorem toList_node (l k v b r i p) :
+    toList (.node l k v b r i p) = toList l ++ (k, v) :: toList r := rfl
+@[simp] theorem height_setPar (t : T) (p : Option Nat) : height (setPar t p) = height t := by
+  cases t <;> rfl
+@[simp] theorem toList_setPar (t : T) (p : Option Nat) : toList (setPar t p) = toList t := by
+  cases t <;> rfl
+@[simp] theorem rootBal_setPar (t : T) (p : Option Nat) : rootBal (setPar t p) = rootBal t := by
+  cases t <;> rfl
 
-theorem avl_node {l k v b r} :
-    Avl (.node l k v b r) ↔ Avl l ∧ Avl r ∧ b = (height r : Int) - (height l : Int) ∧ -1 ≤ b ∧ b ≤ 1 :=
+theorem avl_node {l k v b r i p} :
+    Avl (.node l k v b r i p) ↔ Avl l ∧ Avl r ∧ b = (height r : Int) - (height l : Int) ∧ -1 ≤ b ∧ b ≤ 1 :=
   Iff.rfl
+
+@[simp] theorem avl_setPar (t : T) (p : Option Nat) : Avl (setPar t p) ↔ Avl t := by
+  cases t <;> exact Iff.rfl
 
 theorem height_pos_iff {t : T} : 0 < height t ↔ t ≠ .nil := by
   cases t <;> simp
 
 /-- right-heavy node (`balance == 2`): `rebalance` succeeds, restores the invariant, keeps the
 in-order sequence; `d` = depth decreased, which is forced when the right child is not balanced -/
-theorem rebalance_right {l r : T} (k : Int) (v : Nat) (hl : Avl l) (hr : Avl r)
-    (hh : height r = height l + 2) :
-    ∃ t' d, rebalance (.node l k v 2 r) = .ok (t', d) ∧ Avl t' ∧
+theorem rebalance_right {l r : T} (k : Int) (v : Nat) (i : Nat) (p : Option Nat)
+    (hl : Avl l) (hr : Avl r) (hh : height r = height l + 2) :
+    ∃ t' d, rebalance (.node l k v 2 r i p) = .ok (t', d) ∧ Avl t' ∧
       toList t' = toList l ++ (k, v) :: toList r ∧
       height t' + d.toNat = height r + 1 ∧ (rootBal r ≠ some 0 → d = true) := by
   cases r with
   | nil => simp at hh
-  | node rl rk rv rb rr =>
+  | node rl rk rv rb rr ri rp =>
     obtain ⟨hrl, hrr, hrb, hrb1, hrb2⟩ := hr
     simp only [height_node] at hh
     by_cases hb : rb ≥ 0
     · by_cases hb0 : rb = 0
-      · have e : rebalance (.node l k v 2 (.node rl rk rv rb rr)) =
-            .ok (.node (.node l k v 1 rl) rk rv (-1) rr, false) := by
+      · have e : rebalance (.node l k v 2 (.node rl rk rv rb rr ri rp) i p) =
+            .ok (.node (.node l k v 1 (setPar rl (some i)) i (some ri)) rk rv (-1) rr ri p, false) := by
           simp [rebalance, rootBal, rotateLeft, hb0]
         refine ⟨_, _, e, ?_, by simp, ?_, by simp [rootBal, hb0]⟩
-        · simp only [avl_node, height_node]; refine ⟨⟨hl, hrl, ?_, ?_, ?_⟩, hrr, ?_, ?_, ?_⟩ <;> omega
-        · simp only [height_node, Bool.toNat_false]; omega
-      · have e : rebalance (.node l k v 2 (.node rl rk rv rb rr)) =
-            .ok (.node (.node l k v 0 rl) rk rv 0 rr, true) := by
+        · simp only [avl_node, height_node, height_setPar, avl_setPar]
+          refine ⟨⟨hl, hrl, ?_, ?_, ?_⟩, hrr, ?_, ?_, ?_⟩ <;> omega
+        · simp only [height_node, height_setPar, Bool.toNat_false]; omega
+      · have e : rebalance (.node l k v 2 (.node rl rk rv rb rr ri rp) i p) =
+            .ok (.node (.node l k v 0 (setPar rl (some i)) i (some ri)) rk rv 0 rr ri p, true) := by
           simp [rebalance, rootBal, rotateLeft, hb0, hb]
         refine ⟨_, _, e, ?_, by simp, ?_, by simp⟩
-        · simp only [avl_node, height_node]; refine ⟨⟨hl, hrl, ?_, ?_, ?_⟩, hrr, ?_, ?_, ?_⟩ <;> omega
-        · simp only [height_node, Bool.toNat_true]; omega
+        · simp only [avl_node, height_node, height_setPar, avl_setPar]
+          refine ⟨⟨hl, hrl, ?_, ?_, ?_⟩, hrr, ?_, ?_, ?_⟩ <;> omega
+        · simp only [height_node, height_setPar, Bool.toNat_true]; omega
     · have hb' : rb = -1 := by omega
       subst hb'
       cases rl with
       | nil => simp at hrb <;> omega
-      | node t2 yk yv yb t3 =>
+      | node t2 yk yv yb t3 yi yp =>
         obtain ⟨h2, h3, hyb, hyb1, hyb2⟩ := hrl
         simp only [height_node] at hrb hh
-        have e : rebalance (.node l k v 2 (.node (.node t2 yk yv yb t3) rk rv (-1) rr)) =
-            .ok (.node (.node l k v (if yb > 0 then -1 else 0) t2) yk yv 0
-              (.node t3 rk rv (if yb > 0 then 0 else if yb = 0 then 0 else 1) rr), true) := by
+        have e : rebalance (.node l k v 2 (.node (.node t2 yk yv yb t3 yi yp) rk rv (-1) rr ri rp) i p) =
+            .ok (.node (.node l k v (if yb > 0 then -1 else 0) (setPar t2 (some i)) i (some yi)) yk yv 0
+              (.node (setPar t3 (some ri)) rk rv (if yb > 0 then 0 else if yb = 0 then 0 else 1) rr
+                ri (some yi)) yi p, true) := by
           simp [rebalance, rootBal, rotateRightLeft]
         refine ⟨_, _, e, ?_, by simp, ?_, by simp⟩
-        · simp only [avl_node, height_node]
+        · simp only [avl_node, height_node, height_setPar, avl_setPar]
           refine ⟨⟨hl, h2, ?_, ?_, ?_⟩, ⟨h3, hrr, ?_, ?_, ?_⟩, ?_, ?_, ?_⟩ <;>
             (try split) <;> (try split) <;> omega
-        · simp only [height_node, Bool.toNat_true]; omega
+        · simp only [height_node, height_setPar, Bool.toNat_true]; omega
 
 /-- left-heavy node (`balance == -2`), mirror image of `rebalance_right` -/
-theorem rebalance_left {l r : T} (k : Int) (v : Nat) (hl : Avl l) (hr : Avl r)
-    (hh : height l = height r + 2) :
-    ∃ t' d, rebalance (.node l k v (-2) r) = .ok (t', d) ∧ Avl t' ∧
+theorem rebalance_left {l r : T} (k : Int) (v : Nat) (i : Nat) (p : Option Nat)
+    (hl : Avl l) (hr : Avl r) (hh : height l = height r + 2) :
+    ∃ t' d, rebalance (.node l k v (-2) r i p) = .ok (t', d) ∧ Avl t' ∧
       toList t' = toList l ++ (k, v) :: toList r ∧
       height t' + d.toNat = height l + 1 ∧ (rootBal l ≠ some 0 → d = true) := by
   cases l with
   | nil => simp at hh
-  | node ll lk lv lb lr =>
+  | node ll lk lv lb lr li lp =>
     obtain ⟨hll, hlr, hlb, hlb1, hlb2⟩ := hl
     simp only [height_node] at hh
     by_cases hb : lb ≤ 0
     · by_cases hb0 : lb = 0
-      · have e : rebalance (.node (.node ll lk lv lb lr) k v (-2) r) =
-            .ok (.node ll lk lv 1 (.node lr k v (-1) r), false) := by
+      · have e : rebalance (.node (.node ll lk lv lb lr li lp) k v (-2) r i p) =
+            .ok (.node ll lk lv 1 (.node (setPar lr (some i)) k v (-1) r i (some li)) li p, false) := by
           simp [rebalance, rootBal, rotateRight, hb0]
         refine ⟨_, _, e, ?_, by simp, ?_, by simp [rootBal, hb0]⟩
-        · simp only [avl_node, height_node]; refine ⟨hll, ⟨hlr, hr, ?_, ?_, ?_⟩, ?_, ?_, ?_⟩ <;> omega
-        · simp only [height_node, Bool.toNat_false]; omega
-      · have e : rebalance (.node (.node ll lk lv lb lr) k v (-2) r) =
-            .ok (.node ll lk lv 0 (.node lr k v 0 r), true) := by
+        · simp only [avl_node, height_node, height_setPar, avl_setPar]
+          refine ⟨hll, ⟨hlr, hr, ?_, ?_, ?_⟩, ?_, ?_, ?_⟩ <;> omega
+        · simp only [height_node, height_setPar, Bool.toNat_false]; omega
+      · have e : rebalance (.node (.node ll lk lv lb lr li lp) k v (-2) r i p) =
+            .ok (.node ll lk lv 0 (.node (setPar lr (some i)) k v 0 r i (some li)) li p, true) := by
           simp [rebalance, rootBal, rotateRight, hb0, hb]
         refine ⟨_, _, e, ?_, by simp, ?_, by simp⟩
-        · simp only [avl_node, height_node]; refine ⟨hll, ⟨hlr, hr, ?_, ?_, ?_⟩, ?_, ?_, ?_⟩ <;> omega
-        · simp only [height_node, Bool.toNat_true]; omega
+        · simp only [avl_node, height_node, height_setPar, avl_setPar]
+          refine ⟨hll, ⟨hlr, hr, ?_, ?_, ?_⟩, ?_, ?_, ?_⟩ <;> omega
+        · simp only [height_node, height_setPar, Bool.toNat_true]; omega
     · have hb' : lb = 1 := by omega
       subst hb'
       cases lr with
       | nil => simp at hlb <;> omega
-      | node t3 yk yv yb t2 =>
+      | node t3 yk yv yb t2 yi yp =>
         obtain ⟨h3, h2, hyb, hyb1, hyb2⟩ := hlr
         simp only [height_node] at hlb hh
-        have e : rebalance (.node (.node ll lk lv 1 (.node t3 yk yv yb t2)) k v (-2) r) =
-            .ok (.node (.node ll lk lv (if yb > 0 then -1 else 0) t3) yk yv 0
-              (.node t2 k v (if yb > 0 then 0 else if yb = 0 then 0 else 1) r), true) := by
+        have e : rebalance (.node (.node ll lk lv 1 (.node t3 yk yv yb t2 yi yp) li lp) k v (-2) r i p) =
+            .ok (.node (.node ll lk lv (if yb > 0 then -1 else 0) (setPar t3 (some li)) li (some yi)) yk yv 0
+              (.node (setPar t2 (some i)) k v (if yb > 0 then 0 else if yb = 0 then 0 else 1) r
+                i (some yi)) yi p, true) := by
           simp [rebalance, rootBal, rotateLeftRight]
         refine ⟨_, _, e, ?_, by simp, ?_, by simp⟩
-        · simp only [avl_node, height_node]
+        · simp only [avl_node, height_node, height_setPar, avl_setPar]
           refine ⟨⟨hll, h3, ?_, ?_, ?_⟩, ⟨h2, hr, ?_, ?_, ?_⟩, ?_, ?_, ?_⟩ <;>
             (try split) <;> (try split) <;> omega
-        · simp only [height_node, Bool.toNat_true]; omega
+        · simp only [height_node, height_setPar, Bool.toNat_true]; omega
 
 /-! ## association-list facts used to read `find` off the in-order sequence -/
 
@@ -140,7 +157,7 @@ theorem find_eq_lookup : ∀ {t : T}, Sorted t → ∀ y, find t y = List.lookup
   intro t
   induction t with
   | nil => intro _ y; rfl
-  | node l k v b r ihl ihr =>
+  | node l k v b r i p ihl ihr =>
     intro hs y
     obtain ⟨sl, sr, hlk, hkr⟩ := sorted_node.mp hs
     simp only [find, toList, List.lookup_append, List.lookup_cons]
@@ -223,7 +240,7 @@ theorem size_eq_length : ∀ t : T, T.size t = (toList t).length := by
   intro t
   induction t with
   | nil => rfl
-  | node l k v b r ihl ihr => simp [T.size, ihl, ihr]; omega
+  | node l k v b r i p ihl ihr => simp [T.size, ihl, ihr]; omega
 
 /-- in a strictly sorted association list membership and first-match lookup coincide -/
 theorem mem_iff_lookup_of_sorted {t : T} (hs : Sorted t) (k : Int) (v : Nat) :
